@@ -318,26 +318,40 @@ def run(tier, rep):
         raise C.MachineryError("Progress without fallback no longer violates WorkLinear (vacuity guard)")
     rep.tlc("Progress[no fallback, expected counter-example]", rn)
     jobs, fam = build_jobs(tier, rep)
-    # stage 1: plain
-    traces = C.pmap(plain, jobs, chunk=500, limit=0)
-    suspects = [k for k, t in enumerate(traces) if t["ev"][-1][1] == "guard"]
-    skipped = [k for k, t in enumerate(traces) if t["ev"][-1][1] == "skipped"]
-    suspects.sort(key=lambda k: len(jobs[k][2]) if isinstance(jobs[k][2], (str, bytes)) else 0)
-    rerun = suspects[:48]
-    # deterministic re-run under a step budget decides; guard hits beyond the first 48 are not judged
-    rj = [tuple(jobs[k]) + (True,) for k in rerun]
-    for k, t in zip(rerun, C.pmap(observed, rj, chunk=1, limit=0) if len(rj) > 2 else [observed(j) for j in rj]):
-        traces[k] = t
-    confirmed = [k for k in rerun if traces[k]["ev"][-1][1] == "budget"]
-    if skipped and not confirmed:
-        raise C.MachineryError(f"wall-clock guard fired {len(suspects)} times but no hang was confirmed under the step budget")
-    drop = set(skipped) | set(suspects[48:])
-    if drop:
-        jobs = [j for k, j in enumerate(jobs) if k not in drop]
-        traces = [t for k, t in enumerate(traces) if k not in drop]
-    verdicts, st = C.validate_traces("ProgressTrace", traces, shard=40000)
-    rep.tlc_stats("ProgressTrace[outcomes]", st, len(traces))
-    _report(rep, jobs, verdicts, "plain")
+    # stage 1: plain (in slices: bounded memory in the thorough tier)
+    all_jobs, jobs = jobs, []
+    acc = {"generated": 0, "distinct": 0, "shards": 0, "tlc_wall": 0.0}
+    nsuspects = nskipped = nconfirmed = reran = ntraces = 0
+    for lo in range(0, len(all_jobs), 500000):
+        sl = all_jobs[lo: lo + 500000]
+        traces = C.pmap(plain, sl, chunk=500, limit=0)
+        suspects = [k for k, t in enumerate(traces) if t["ev"][-1][1] == "guard"]
+        skipped = [k for k, t in enumerate(traces) if t["ev"][-1][1] == "skipped"]
+        suspects.sort(key=lambda k: len(sl[k][2]) if isinstance(sl[k][2], (str, bytes)) else 0)
+        rerun = suspects[:max(0, 48 - reran)]
+        reran += len(rerun)
+        # deterministic re-run under a step budget decides; guard hits beyond the first 48 are not judged
+        rj = [tuple(sl[k]) + (True,) for k in rerun]
+        for k, t in zip(rerun, C.pmap(observed, rj, chunk=1, limit=0) if len(rj) > 2 else [observed(j) for j in rj]):
+            traces[k] = t
+        nconfirmed += sum(1 for k in rerun if traces[k]["ev"][-1][1] == "budget")
+        nsuspects += len(suspects)
+        nskipped += len(skipped)
+        drop = set(skipped) | set(suspects[len(rerun):])
+        if drop:
+            sl = [j for k, j in enumerate(sl) if k not in drop]
+            traces = [t for k, t in enumerate(traces) if k not in drop]
+        verdicts, st = C.validate_traces("ProgressTrace", traces, shard=40000)
+        for kk in acc:
+            acc[kk] += st[kk]
+        ntraces += len(traces)
+        _report(rep, sl, verdicts, "plain")
+        jobs += sl
+        del traces, verdicts
+    del all_jobs
+    if nskipped and not nconfirmed:
+        raise C.MachineryError(f"wall-clock guard fired {nsuspects} times but no hang was confirmed under the step budget")
+    rep.tlc_stats("ProgressTrace[outcomes]", acc, ntraces)
     # stage 2: observed dispatch loops on every family/long document and a seeded 5 % sample
     rnd = random.Random(C.SEED + 9)
     famset = set(fam)
@@ -356,7 +370,7 @@ def run(tier, rep):
     rep.cov["rule"] = ("case = (configuration, entry point, source, env); sources enumerated by DocGen.tla and subsampled with "
                        "the run seed, plus prefixes, nesting families, simulated long documents, fixture inputs, byte files; "
                        "non-trivial = distinct case with a non-empty source")
-    rep.cov["bounds"].update({"observed_calls": len(ojobs), "dispatch_events": nd, "guard_reruns": len(suspects)})
+    rep.cov["bounds"].update({"observed_calls": len(ojobs), "dispatch_events": nd, "guard_reruns": nsuspects})
     rep.cov["exhaustive"] = False
     rep.assumptions += ["linkify-it-py is not installed: linkifier paths run only up to the documented ModuleNotFoundError",
                         "surrogate code points are excluded (as the property's quantifier does)",
